@@ -5,7 +5,6 @@ import (
 	"fmt"
 	"path/filepath"
 	"strings"
-	"sync"
 
 	"github.com/tableauio/tableau/format"
 	"github.com/tableauio/tableau/internal/confgen/fieldprop"
@@ -146,12 +145,13 @@ func ParseMessage(info *SheetInfo, impInfos ...importer.ImporterInfo) (proto.Mes
 	}
 
 	// NOTE: use map-reduce pattern to accelerate parsing multiple importer infos.
-	var mu sync.Mutex // guard msgs
-	var msgs []oneMsg
+	// Each worker fills its own slot, so that the merge order below is the
+	// order of impInfos and does not depend on goroutine scheduling.
+	msgs := make([]oneMsg, len(impInfos))
 
 	var eg errgroup.Group
-	for _, impInfo := range impInfos {
-		impInfo := impInfo
+	for i, impInfo := range impInfos {
+		i, impInfo := i, impInfo
 		// map-reduce: map jobs for concurrent processing
 		eg.Go(func() error {
 			protomsg, err := parseMessageFromOneImporter(info, impInfo)
@@ -159,13 +159,11 @@ func ParseMessage(info *SheetInfo, impInfos ...importer.ImporterInfo) (proto.Mes
 				return err
 			}
 			verifYield("ParseMessage.parsed", impInfo.Filename())
-			mu.Lock()
-			msgs = append(msgs, oneMsg{
+			msgs[i] = oneMsg{
 				protomsg:  protomsg,
 				bookName:  getRelBookName(info.ExtInfo.InputDir, impInfo.Filename()),
 				sheetName: getRealSheetName(info, impInfo),
-			})
-			mu.Unlock()
+			}
 			verifYield("ParseMessage.stored", impInfo.Filename())
 			return nil
 		})
